@@ -72,7 +72,7 @@ func flattenEvents(evs []abci.Event) []string {
 
 func historyGenesis(W, C int64, nAcc int) chain.GenesisOpts {
 	sp := chain.DefaultStorageParams()
-	sp.ProofWindow, sp.CheckWindow, sp.CollateralPrice, sp.AttestFormSize, sp.AttestMinToPass = W, C, 5000, 2, 1
+	sp.ProofWindow, sp.CheckWindow, sp.CollateralPrice, sp.AttestFormSize, sp.AttestMinToPass = W, C, 5000, 2, 2
 	return chain.GenesisOpts{NumAccounts: nAcc, Balance: sdk.NewCoins(sdk.NewInt64Coin("ujkl", 1_000_000_000_000), sdk.NewInt64Coin("uatom", 1_000_000_000)), Storage: &sp}
 }
 
@@ -391,6 +391,25 @@ func buildHistory(rt *rapid.T, full bool) (*histBuilder, string) {
 				if signer != nil {
 					b.send(*signer, m)
 				}
+			}
+		}
+		if i == nBlocks-1 && rapid.IntRange(0, 9).Draw(rt, "leaveFormsOpen") < 7 {
+			// leave open forms behind: an attestation form and a report form about the same (prover, file)
+			ctx := b.ctx()
+			for _, f := range b.files {
+				uf, ok := b.c.App.StorageKeeper.GetFile(ctx, f.Merkle, f.Owner, f.Start)
+				if !ok || len(uf.Proofs) == 0 {
+					continue
+				}
+				prover := strings.SplitN(uf.Proofs[0], "/", 2)[0]
+				for _, p := range b.provs {
+					if p.Bech == prover {
+						b.send(p, storagetypes.NewMsgRequestAttestationForm(p.Bech, f.Merkle, f.Owner, f.Start))
+						b.send(other[1], storagetypes.NewMsgRequestReportForm(other[1].Bech, p.Bech, f.Merkle, f.Owner, f.Start))
+						b.formRequested = true
+					}
+				}
+				break
 			}
 		}
 		if p := b.end(); p != "" {
